@@ -123,6 +123,18 @@ pub fn dap_check(prop: &str, tier: &str) -> i32 {
         eprintln!("HARNESS-ERROR empty corpus");
         return 2;
     }
+    if prop == "C13" {
+        // what each request denotes, asked of the core once per binary in a process of its own
+        let jobs: Vec<(String, String, Vec<String>)> = corpus.progs.iter().map(|(p, b)| (b.bin.to_string_lossy().to_string(), b.src_file.clone(), p.functions.clone())).collect();
+        let res = orch::parallel(jobs, orch::nworkers(), |(bin, src, fns)| {
+            let st = std::process::Command::new(std::env::current_exe().unwrap()).arg("denote").arg(&bin).arg(&src).args(&fns).status();
+            st.map(|s| s.success()).unwrap_or(false)
+        });
+        if res.iter().any(|ok| !ok) {
+            eprintln!("HARNESS-ERROR denotation of the corpus failed");
+            return 2;
+        }
+    }
     let corpus_info = json!({"family": "micro (stdout + stderr lines)", "programs": corpus.progs.len(), "rejected": corpus.rejected});
     let dir = scratch_dir(prop);
     let mut ws = vec![];
@@ -149,7 +161,7 @@ pub fn dap_check(prop: &str, tier: &str) -> i32 {
         timeout: Duration::from_secs(90),
         params,
         level: "exploration".into(),
-        rule: "one case = one (program, adaptive request history with argument mutation, interleaving of the session thread and the stdout/stderr forwarder threads chosen at the H1 schedule points from the run's tape); the recorded wire log is checked for one response per request, seq = 1,2,3.. in wire order, event uniqueness/causality and silence after `terminated`; distinct = distinct canonical wire log + schedule; non-trivial = at least 3 requests".into(),
+        rule: if prop == "C13" { "one case = one (program, history of setBreakpoints / setFunctionBreakpoints / setInstructionBreakpoints with condition, hitCondition or logMessage, before start, after start and around restart, interleaved with configurationDone / continue / restart); which addresses a request denotes is asked of the core (twin Debugger), where the program must stop next comes from the reference execution, where it really is from PTRACE_GETREGS + TICK, which addresses are patched from the process text; distinct = distinct canonical wire log; non-trivial = at least 3 requests".to_string() } else { "one case = one (program, adaptive request history with argument mutation, interleaving of the session thread and the stdout/stderr forwarder threads chosen at the H1 schedule points from the run's tape); the recorded wire log is checked for one response per request, seq = 1,2,3.. in wire order, event uniqueness/causality and silence after `terminated`; distinct = distinct canonical wire log + schedule; non-trivial = at least 3 requests".to_string() },
         assumptions: vec![
             "schedule points sit outside every critical section, so the explored interleavings are exactly those distinguishable on the wire".into(),
             "the simulated transport never blocks; in the real adapter the session holds the transport mutex while waiting for the client, which admits the same wire orders".into(),
@@ -160,7 +172,7 @@ pub fn dap_check(prop: &str, tier: &str) -> i32 {
             "simulated": ["DAP client (seeded adaptive generator)", "transport (in-memory DapTransport)", "thread scheduler at hook points (tape-driven)"],
             "stub": ["TCP/stdio framing (Content-Length) not exercised"]
         }),
-        required_probes: vec!["c12.requests".into(), "c12.output_events".into(), "c12.decisions_with_choice".into(), "c12.forwarder_released_between_seq_and_lock_with_rivals".into(), "c12.error_responses".into(), "c12.stopped_events".into()],
+        required_probes: if prop == "C13" { vec!["c13.set_requests_checked".into(), "c13.runs_checked".into(), "c13.expected_stop".into(), "c13.expected_exit".into(), "c13.sets_before_start".into(), "c13.sets_after_start".into(), "c13.breakpoints_with_options".into(), "c13.multi_location_breakpoints".into(), "c13.text_checked_after_set".into()] } else { vec!["c12.requests".into(), "c12.output_events".into(), "c12.decisions_with_choice".into(), "c12.forwarder_released_between_seq_and_lock_with_rivals".into(), "c12.error_responses".into(), "c12.stopped_events".into()] },
         budget: Duration::from_secs(600),
     };
     orch::run_check(cfg, ws, corpus_info)
@@ -265,7 +277,7 @@ pub fn check(prop: &str, tier: &str) -> i32 {
         "C11" | "C14" => two_legs(prop, tier),
         "C09" | "C10" => layer_b_check(prop, tier),
         "C01" | "C02" | "C03" | "C05" | "C11" | "C14" | "C15" | "C16" => layer_a_check(prop, tier),
-        "C12" => dap_check(prop, tier),
+        "C12" | "C13" => dap_check(prop, tier),
         _ => {
             eprintln!("no check for {prop}");
             2
